@@ -216,7 +216,9 @@ class Runner:
         tracer = None
         # several calls = several traces; a stream handed over mid-way takes one of two paths depending on its tail's digest
         single_calls = op['op'] == 'addPacked' and ((op.get('via') == 'single' and len(op['cs']) > 1) or op.get('via') == 'midstream')
-        if getattr(self, 'check_trace', False) and not single_calls and op['op'] in ('addLoose', 'addPacked', 'packAll', 'delete', 'repackOne', 'clean'):
+        # (stray files in duplicates/ are not part of the Level-C model: with them present, clean and delete are not traced)
+        if (getattr(self, 'check_trace', False) and not single_calls and op['op'] in ('addLoose', 'addPacked', 'packAll', 'delete', 'repackOne', 'clean')
+                and not (pre.duplicates and op['op'] in ('delete', 'clean'))):
             from .iotrace import Tracer  # pylint: disable=import-outside-toplevel
 
             tracer = Tracer(rc.folder).install()
